@@ -14,16 +14,59 @@ package cty
 // numericRangeArithmetic returns a refiner, refining keeps type, marks and well-formedness and does
 // not touch a known value.
 //@ func (cty.Value).Range
-//@   trusted
-//@   requires (not (is_marked v))
+//@   tags C01 C05
+//@   requires (wf_deep v)
+//@   let w (vr_raw result)
+//@   let rn (rnum_at (unbox<*cty.refinementNumber> w))
+//@   panics[C01] (is_marked v)
+//@   ensures[C01] ty: (= (vr_ty result) (vty v))
+//@   ensures[C01] ok: (rfn_ok (vty v) w)
+//@   ensures[C01] refined: (=> (and (is_unk_payload v) (not (= (rfn_of v) nil.Any))) (= w (rfn_of v)))
+//@   ensures[C01] unrefined: (=> (and (is_unk_payload v) (= (rfn_of v) nil.Any)) (and ((_ is box<*cty.refinementNullable>) w) (= (rfn_null w) 0)))
+//@   ensures[C01] null: (=> (and (not (is_unk_payload v)) (is_null v)) (and ((_ is box<*cty.refinementNullable>) w) (= (rfn_null w) 84)))
+//@   ensures[C01] number: (=> (and (not (is_unk_payload v)) (not (is_null v)) (is_number_ty (vty v))) (and ((_ is box<*cty.refinementNumber>) w) (= (cty.refinementNumber.min rn) v) (= (cty.refinementNumber.max rn) v) (cty.refinementNumber.minInc rn) (cty.refinementNumber.maxInc rn)))
+//@   ensures[C01] notnull: (=> (and (not (is_unk_payload v)) (not (is_null v))) (= (rfn_null w) 70))
 //
 //@ func (cty.ValueRange).NumberLowerBound
-//@   trusted
-//@   ensures (and (wf_deep result.0) (is_number_ty (vty result.0)) (not (is_marked result.0)) (not (is_null result.0)))
+//@   tags C01 C05
+//@   requires (rfn_ok (vr_ty r) (vr_raw r))
+//@   let w (vr_raw r)
+//@   let rn (rnum_at (unbox<*cty.refinementNumber> w))
+//@   let set (and ((_ is box<*cty.refinementNumber>) w) (not (= (cty.refinementNumber.min rn) nilval)))
+//@   panics[C01] (and (not (is_dyn_ty (vr_ty r))) (not (is_number_ty (vr_ty r))))
+//@   ensures[C01] dyn: (=> (is_dyn_ty (vr_ty r)) (and (= min (mk.cty.Value $G<cty.Number> $G<cty.totallyUnknown>)) (not inclusive)))
+//@   ensures[C01] set: (=> (and (is_number_ty (vr_ty r)) set) (ite (is_known (cty.refinementNumber.min rn)) (and (= min (cty.refinementNumber.min rn)) (= inclusive (cty.refinementNumber.minInc rn))) (and (= min $G<cty.NegativeInfinity>) inclusive)))
+//@   ensures[C01] unset: (=> (and (is_number_ty (vr_ty r)) (not set)) (and (= min $G<cty.NegativeInfinity>) (not inclusive)))
 //
 //@ func (cty.ValueRange).NumberUpperBound
+//@   tags C01 C05
+//@   requires (rfn_ok (vr_ty r) (vr_raw r))
+//@   let w (vr_raw r)
+//@   let rn (rnum_at (unbox<*cty.refinementNumber> w))
+//@   let set (and ((_ is box<*cty.refinementNumber>) w) (not (= (cty.refinementNumber.max rn) nilval)))
+//@   panics[C01] (and (not (is_dyn_ty (vr_ty r))) (not (is_number_ty (vr_ty r))))
+//@   ensures[C01] dyn: (=> (is_dyn_ty (vr_ty r)) (and (= max (mk.cty.Value $G<cty.Number> $G<cty.totallyUnknown>)) (not inclusive)))
+//@   ensures[C01] set: (=> (and (is_number_ty (vr_ty r)) set) (ite (is_known (cty.refinementNumber.max rn)) (and (= max (cty.refinementNumber.max rn)) (= inclusive (cty.refinementNumber.maxInc rn))) (and (= max $G<cty.PositiveInfinity>) inclusive)))
+//@   ensures[C01] unset: (=> (and (is_number_ty (vr_ty r)) (not set)) (and (= max $G<cty.PositiveInfinity>) (not inclusive)))
+//
+// Length is not under contract yet (assumed: a well-formed number which, when known, is a
+// non-negative integer that fits int64).
+//@ func (cty.Value).Length
 //@   trusted
-//@   ensures (and (wf_deep result.0) (is_number_ty (vty result.0)) (not (is_marked result.0)) (not (is_null result.0)))
+//@   ensures (and (wf_deep result) (is_number_ty (vty result)) (not (is_null result)) (=> (not (is_marked val)) (not (is_marked result))))
+//@   ensures (=> (is_known result) (is_index_num result))
+//
+//@ func (cty.Value).assertUnmarked
+//@   tags C02
+//@   panics[C02] (is_marked val)
+//
+// AsBigFloat returns a copy of the number object (C20: mutation of the returned number cannot change the value).
+//@ func (cty.Value).AsBigFloat
+//@   tags C02 C20
+//@   requires (wf_deep val)
+//@   panics[C02] (or (is_marked val) (not (is_number_ty (vty val))) (is_null val) (not (is_known val)))
+//@   fresh result
+//@   ensures[C02] copy: (and (not (= result 0)) (bf_same ($at<math/big.Float> result) (bf_of val)))
 //
 //@ func (*cty.RefinementBuilder).NewValue
 //@   trusted
@@ -96,6 +139,7 @@ package cty
 //@   panics[C02] (or (and (not (is_dyn_ty t)) (not (is_number_ty t))) (and (not (is_dyn_ty ot)) (not (is_number_ty ot))) (and (not sc) (or (is_null val) (is_null other))))
 //@   ensures[C02] type: (is_bool_ty (vty result))
 //@   ensures[C02] known: (=> (not sc) (bool_payload result (bf_lt (bf_of val) (bf_of other))))
+//@   ensures[C01] sound: ghost ((c1i Int) (c1r Real) (c2i Int) (c2r Real)) :: (=> (and (not (is_marked val)) (not (is_marked other)) (is_number_ty t) (is_number_ty ot) (num_admits val c1i c1r) (num_admits other c2i c2r) (is_known result)) (bool_payload result (x_lt c1i c1r c2i c2r)))
 //@   ensures[C01] notnull: (not (is_null result))
 //@   ensures[C04] marks_kept: (forall ((k Any)) (! (=> (or (select (marks_of val) k) (select (marks_of other) k)) (select (marks_of result) k)) :pattern ((select (marks_of result) k))))
 //@   ensures[C04] nomarks: (=> (and (not (is_marked val)) (not (is_marked other))) (not (is_marked result)))
@@ -110,6 +154,7 @@ package cty
 //@   panics[C02] (or (and (not (is_dyn_ty t)) (not (is_number_ty t))) (and (not (is_dyn_ty ot)) (not (is_number_ty ot))) (and (not sc) (or (is_null val) (is_null other))))
 //@   ensures[C02] type: (is_bool_ty (vty result))
 //@   ensures[C02] known: (=> (not sc) (bool_payload result (bf_lt (bf_of other) (bf_of val))))
+//@   ensures[C01] sound: ghost ((c1i Int) (c1r Real) (c2i Int) (c2r Real)) :: (=> (and (not (is_marked val)) (not (is_marked other)) (is_number_ty t) (is_number_ty ot) (num_admits val c1i c1r) (num_admits other c2i c2r) (is_known result)) (bool_payload result (x_lt c2i c2r c1i c1r)))
 //@   ensures[C01] notnull: (not (is_null result))
 //@   ensures[C04] marks_kept: (forall ((k Any)) (! (=> (or (select (marks_of val) k) (select (marks_of other) k)) (select (marks_of result) k)) :pattern ((select (marks_of result) k))))
 //@   ensures[C04] nomarks: (=> (and (not (is_marked val)) (not (is_marked other))) (not (is_marked result)))
